@@ -12,7 +12,7 @@ IDLE, RES_LOCAL, RES_REMOTE, OPEN, HCL, HCR, CLOSED = (
 class SView:
     """what is known about one stream"""
     __slots__ = ('st', 'closed_by', 'requester', 'hs', 'ts', 'hr', 'tr', 'info_sent',
-                 'pushed', 'ended_events', 'reset_events', 'parent')
+                 'pushed', 'ended_events', 'reset_events', 'parent', 'pp_on_hcr')
 
     def __init__(self):
         self.st = IDLE
@@ -25,6 +25,7 @@ class SView:
         self.info_sent = 0
         self.pushed = False
         self.parent = None
+        self.pp_on_hcr = False      # a PUSH_PROMISE was accepted on it while half-closed(remote)
 
     def key(self):
         return (self.st, self.closed_by, self.requester, self.hs, self.ts, self.hr, self.tr,
@@ -184,6 +185,12 @@ class Observer:
             p.pushed = True
             p.parent = sid
             self.highest_in = max(self.highest_in, f.promised_stream_id)
+
+    def on_push_refused(self, parent):
+        """the endpoint answered a PUSH_PROMISE with RST_STREAM on the promised stream"""
+        par = self._get(parent)
+        if par.st == HCR:
+            par.pp_on_hcr = True       # precondition of known finding F-C06-2
 
     def on_conn_error(self):
         self.conn_closed = self.conn_closed or 'error'
